@@ -26,8 +26,9 @@ ItemOK(it, tok) == CASE it.k = "any" -> TRUE
 TmplOK(r, args) == \A i \in 1..Len(r.tmpl) : r.tmpl[i].k = "any" \/ (i <= Len(args) /\ ItemOK(r.tmpl[i], args[i]))
 \* exact responders: equality; matching responders: the message address is the pattern
 PathOK(r, a) == IF r.kind = "exact" THEN r.path = a ELSE Match(a, r.path)
-Accepts(r, m, src, via) ==
-    r.en /\ ~r.freed /\ PathOK(r, m.a) /\ SrcOK(r, src) /\ PortOK(r, via) /\ TmplOK(r, m.args)
+\* the message is for this responder (filters) / and the responder is listening
+Matches(r, m, src, via) == PathOK(r, m.a) /\ SrcOK(r, src) /\ PortOK(r, via) /\ TmplOK(r, m.args)
+Accepts(r, m, src, via) == r.en /\ ~r.freed /\ Matches(r, m, src, via)
 
 \* the responders one message invokes, in registration order
 Fire(st, m, src, via) == SelectSeq(st.ord, LAMBDA i : Accepts(st.rs[i], m, src, via))
@@ -112,7 +113,8 @@ Class(d, st) ==
 (* ---- judging an observed delivery ---- *)
 (* What L1 demands of the invocations observed for ONE message m (seg = the callbacks that ran, in order):
      - only responders accepted when the message arrived (F) may fire - or ones that a callback of this very
-       delivery enabled and that accept the message (either is fine: the statement does not say);
+       delivery enabled and whose filters match the message (either is fine: the statement does not say; also
+       when another callback of the delivery has freed it again meanwhile);
      - each at most once; with the message, sender, port, current function (and time, where comparable);
      - every responder of F fires, unless a callback of this delivery disabled or freed it - then either is
        fine, except when that callback belongs to a responder registered later on the same path of the same
@@ -125,7 +127,7 @@ First(a, b) == IF a = "ok" THEN b ELSE a
 EntryWhy(w, st0, F, e, m, src, via, tag) ==
     LET r == e.r  cur == w.st IN
     IF r \in ToSet(w.fired) THEN "EachOnce"
-    ELSE IF r \notin ToSet(F) /\ ~(r \in w.enabled /\ Accepts(cur.rs[r], m, src, via)) THEN
+    ELSE IF r \notin ToSet(F) /\ ~(r \in w.enabled /\ Matches(cur.rs[r], m, src, via)) THEN
          (IF st0.rs[r].freed THEN "FreedNeverFires" ELSE IF ~st0.rs[r].en THEN "DisabledNeverFires" ELSE "ShouldNotFire")
     ELSE IF e.fn # cur.rs[r].fn \/ e.a # m.a \/ e.args # m.args \/ e.src # src \/ e.via # via THEN "CallbackArguments"
     ELSE IF tag # <<>> /\ tag # Immediately /\ e.tm # tag THEN "CallbackTime"
